@@ -8,7 +8,7 @@ Section PnInd.
   Variable P : pn -> Prop.
   Hypothesis HD : forall n t e g, P (PDecl n t e g).
   Hypothesis HA : forall n e, P (PAssign n e).
-  Hypothesis HO : forall cl, P (POther cl).
+  Hypothesis HO : forall cl, P (PSimple cl).
   Hypothesis HC : forall h b, Forall P b -> P (PCtl h b).
   Fixpoint pn_ind' (n : pn) : P n :=
     let fix all (l : list pn) : Forall P l :=
@@ -16,7 +16,7 @@ Section PnInd.
     match n with
     | PDecl a b c d => HD a b c d
     | PAssign a b => HA a b
-    | POther cl => HO cl
+    | PSimple cl => HO cl
     | PCtl h b => HC h b (all b)
     end.
 End PnInd.
@@ -217,15 +217,15 @@ Definition t_lt2 := [40;99;111;117;110;116;32;60;32;50;41].
 Definition t_i := [105].
 Definition t_3 := [51].
 Definition t_inc := [40;99;111;117;110;116;32;43;32;49;41].
-Definition ex_body : list pn :=
-  [PDecl t_count s_int s_0 false; PCtl (HWhile t_lt2) [POther [[116;59]]; PAssign t_count t_inc]].
+Definition ex_loop_body : list pn :=
+  [PDecl t_count s_int s_0 false; PCtl (HWhile t_lt2) [PSimple [[116;59]]; PAssign t_count t_inc]].
 
 Lemma reset_stays_in_loop :
-  promote_loop [t_count] [(t_count, s_int)] false (HFor t_i t_3) ex_body
+  promote_loop [t_count] [(t_count, s_int)] false (HFor t_i t_3) ex_loop_body
   = [PDecl t_count s_int s_0 false;
-     PCtl (HFor t_i t_3) [PAssign t_count s_0; PCtl (HWhile t_lt2) [POther [[116;59]]; PAssign t_count t_inc]]]
+     PCtl (HFor t_i t_3) [PAssign t_count s_0; PCtl (HWhile t_lt2) [PSimple [[116;59]]; PAssign t_count t_inc]]]
   /\ is_placeholder (PDecl t_count s_int s_0 false) = true
-  /\ items [] (promote_loop [t_count] [(t_count, s_int)] false (HFor t_i t_3) ex_body)
+  /\ items [] (promote_loop [t_count] [(t_count, s_int)] false (HFor t_i t_3) ex_loop_body)
      = [([], ItAssign t_count s_0);
         ([HFor t_i t_3], ItAssign t_count s_0);
         ([HFor t_i t_3; HWhile t_lt2], ItOther [[116;59]]);
@@ -234,9 +234,9 @@ Proof. repeat split; vm_compute; reflexivity. Qed.
 
 (* a rewrite that takes a default-valued declaration in front of a compound statement for a synthetic
    placeholder and drops it (as a C++ reader sees the result) loses a statement of the script *)
-Definition ex_dropped : list pn :=
+Definition ex_reset_dropped : list pn :=
   [PDecl t_count s_int s_0 false;
-   PCtl (HFor t_i t_3) [PCtl (HWhile t_lt2) [POther [[116;59]]; PAssign t_count t_inc]]].
+   PCtl (HFor t_i t_3) [PCtl (HWhile t_lt2) [PSimple [[116;59]]; PAssign t_count t_inc]]].
 Lemma dropped_reset_loses_statement :
-  items [] ex_dropped <> items [] (promote_loop [t_count] [(t_count, s_int)] false (HFor t_i t_3) ex_body).
+  items [] ex_reset_dropped <> items [] (promote_loop [t_count] [(t_count, s_int)] false (HFor t_i t_3) ex_loop_body).
 Proof. vm_compute. discriminate. Qed.
